@@ -671,45 +671,24 @@ static bool compile_builtin_call(CG *cg, ASTNode *node) {
         patch_jump(cg, jf_off + 1, jf_instr, cg->code_size);
         return true;
     }
-    if (strcmp(name, "min") == 0 && argc == 2) {
-        /* min(a,b) = if a < b then a else b */
+    if ((strcmp(name, "min") == 0 || strcmp(name, "max") == 0) && argc == 2) {
+        /* min(a,b) = if a < b then a else b ; max(a,b) = if a > b then a else b */
         compile_expr(cg, args[0]);
         compile_expr(cg, args[1]);
-        /* Stack: a b */
-        emit_op(cg, OP_DUP);     /* a b b */
-        emit_op(cg, OP_ROT3);    /* b b a */
-        emit_op(cg, OP_DUP);     /* b b a a */
-        emit_op(cg, OP_ROT3);    /* b a a b */
-        emit_op(cg, OP_LT);      /* b a (a<b) */
+        uint16_t b_slot = local_add(cg, "__minmax_b__", 0);
+        emit_op(cg, OP_STORE_LOCAL, (int)b_slot);
+        uint16_t a_slot = local_add(cg, "__minmax_a__", 0);
+        emit_op(cg, OP_STORE_LOCAL, (int)a_slot);
+        emit_op(cg, OP_LOAD_LOCAL, (int)a_slot);
+        emit_op(cg, OP_LOAD_LOCAL, (int)b_slot);
+        emit_op(cg, strcmp(name, "min") == 0 ? OP_LT : OP_GT);
         uint32_t jf_instr = cg->code_size;
         uint32_t jf_off = emit_op(cg, OP_JMP_FALSE, (int32_t)0);
-        /* a < b: keep a, drop b */
-        emit_op(cg, OP_SWAP);
-        emit_op(cg, OP_POP);
-        uint32_t je_instr = cg->code_size;
-        uint32_t je_off = emit_op(cg, OP_JMP, (int32_t)0);
-        /* a >= b: keep b, drop a */
-        patch_jump(cg, jf_off + 1, jf_instr, cg->code_size);
-        emit_op(cg, OP_POP);
-        patch_jump(cg, je_off + 1, je_instr, cg->code_size);
-        return true;
-    }
-    if (strcmp(name, "max") == 0 && argc == 2) {
-        compile_expr(cg, args[0]);
-        compile_expr(cg, args[1]);
-        emit_op(cg, OP_DUP);
-        emit_op(cg, OP_ROT3);
-        emit_op(cg, OP_DUP);
-        emit_op(cg, OP_ROT3);
-        emit_op(cg, OP_GT);
-        uint32_t jf_instr = cg->code_size;
-        uint32_t jf_off = emit_op(cg, OP_JMP_FALSE, (int32_t)0);
-        emit_op(cg, OP_SWAP);
-        emit_op(cg, OP_POP);
+        emit_op(cg, OP_LOAD_LOCAL, (int)a_slot);
         uint32_t je_instr = cg->code_size;
         uint32_t je_off = emit_op(cg, OP_JMP, (int32_t)0);
         patch_jump(cg, jf_off + 1, jf_instr, cg->code_size);
-        emit_op(cg, OP_POP);
+        emit_op(cg, OP_LOAD_LOCAL, (int)b_slot);
         patch_jump(cg, je_off + 1, je_instr, cg->code_size);
         return true;
     }
